@@ -396,3 +396,87 @@ Proof.
   unfold all_rego_versions. apply fold_set_nodup.
   destruct project; [apply assoc_set_nodup|]; apply fold_set_nodup; constructor.
 Qed.
+
+(* ---------- spelling invariance: relative and absolute names of one file agree ---------- *)
+Local Open Scope nat_scope.
+
+Lemma join_app_sep (a b : list str) :
+  a <> [] -> b <> [] -> join [SLASH] (a ++ b) = join [SLASH] a ++ SLASH :: join [SLASH] b.
+Proof.
+  induction a as [|x a IH]; intros Ha Hb; [contradiction|].
+  destruct a as [|y a'].
+  - destruct b as [|z b']; [contradiction|]. reflexivity.
+  - change ((x :: y :: a') ++ b) with (x :: y :: (a' ++ b)). rewrite !join_cons2.
+    change (y :: a' ++ b) with ((y :: a') ++ b). rewrite IH by (discriminate || assumption).
+    rewrite <- !app_assoc. reflexivity.
+Qed.
+
+Lemma good_first_not_slash c cs : good_comps (c :: cs) -> is_rooted (join [SLASH] (c :: cs)) = false.
+Proof.
+  intros Hg. inversion Hg as [|? ? (Hne & Hns & _) _]; subst.
+  destruct c as [|x c']; [contradiction|].
+  destruct cs as [|c2 cs]; cbn [join app is_rooted];
+    (destruct (N.eqb_spec x SLASH) as [->|]; [exfalso; apply Hns; left; reflexivity | reflexivity]).
+Qed.
+
+Lemma good_app a b : good_comps a -> good_comps b -> good_comps (a ++ b).
+Proof. intros; apply Forall_app; split; assumption. Qed.
+
+Lemma join_single (sep w : str) : join sep [w] = w.
+Proof. reflexivity. Qed.
+
+Lemma abs_path_relative cwdc relc :
+  good_comps cwdc -> good_comps relc -> relc <> [] ->
+  abs_path (SLASH :: join [SLASH] cwdc) (join [SLASH] relc) = SLASH :: join [SLASH] (cwdc ++ relc).
+Proof.
+  intros Hc Hr Hne. unfold abs_path. destruct relc as [|r relc]; [contradiction|].
+  rewrite good_first_not_slash by assumption. unfold pjoin. cbn [filter].
+  destruct (str_eqb_spec (SLASH :: join [SLASH] cwdc) []) as [E|_]; [discriminate|]. cbn [negb].
+  destruct (str_eqb_spec (join [SLASH] (r :: relc)) []) as [E|_].
+  { exfalso. apply (key_of_nonempty r relc); [inversion Hr; assumption | exact E]. }
+  cbn [negb]. rewrite join_cons2, join_single.
+  destruct cwdc as [|c cwdc].
+  - change (join [SLASH] []) with (@nil N). cbn [app].
+    change (SLASH :: SLASH :: join [SLASH] (r :: relc)) with (repeat SLASH 2 ++ join [SLASH] (r :: relc)).
+    apply clean_rooted_good; [assumption | discriminate].
+  - rewrite join_app_sep by discriminate.
+    change ((SLASH :: join [SLASH] (c :: cwdc)) ++ [SLASH] ++ join [SLASH] (r :: relc))
+      with (repeat SLASH 1 ++ (join [SLASH] (c :: cwdc) ++ SLASH :: join [SLASH] (r :: relc))).
+    rewrite <- join_app_sep by discriminate.
+    apply clean_rooted_good; [apply good_app; assumption | discriminate].
+Qed.
+
+Lemma abs_path_absolute cwd cs :
+  good_comps cs -> cs <> [] ->
+  abs_path cwd (SLASH :: join [SLASH] cs) = SLASH :: join [SLASH] cs.
+Proof.
+  intros Hg Hne. unfold abs_path. cbn [is_rooted]. rewrite N.eqb_refl.
+  change (SLASH :: join [SLASH] cs) with (repeat SLASH 1 ++ join [SLASH] cs).
+  apply clean_rooted_good; assumption.
+Qed.
+
+(* The name handed to the lookup is the same for a path given relative to the working directory
+   and for the absolute path of the same file, whatever the working directory of the second run. *)
+Theorem spelling_invariant cwdc relc cwd' prefix :
+  good_comps cwdc -> good_comps relc -> relc <> [] -> prefix <> [] ->
+  input_from_paths_name (SLASH :: join [SLASH] cwdc) prefix (join [SLASH] relc) =
+  input_from_paths_name cwd' prefix (SLASH :: join [SLASH] (cwdc ++ relc)).
+Proof.
+  intros Hc Hr Hne Hp. unfold input_from_paths_name.
+  destruct (str_eqb_spec prefix []) as [E|_]; [contradiction|].
+  rewrite abs_path_relative by assumption.
+  rewrite abs_path_absolute; [reflexivity | apply good_app; assumption |].
+  destruct cwdc; [assumption | discriminate].
+Qed.
+
+(* and trimming the project prefix from the absolute path yields the "/"-rooted name the lookup
+   theorem [lookup_selects_deepest] speaks about *)
+Lemma name_under_prefix rootc ds base :
+  rootc <> [] ->
+  trim_prefix (SLASH :: join [SLASH] (rootc ++ ds ++ [base])) (SLASH :: join [SLASH] rootc) = file_of ds base.
+Proof.
+  intros Hr. rewrite join_app_sep; [|assumption|destruct ds; discriminate].
+  change (SLASH :: join [SLASH] rootc ++ SLASH :: join [SLASH] (ds ++ [base]))
+    with ((SLASH :: join [SLASH] rootc) ++ (SLASH :: join [SLASH] (ds ++ [base]))).
+  rewrite trim_prefix_app. reflexivity.
+Qed.
